@@ -57,13 +57,11 @@ class FileDriver(drv.Driver):
     def step(self, st, nested=False):
         try:
             res = self.do(st)
-        except drv._Propagate:
-            raise
         except Exception as e:
             self.regs.append(None)
             self.raised = True
             if nested:
-                raise drv._Propagate(e)
+                raise
             return
         self.regs.append(res)
 
